@@ -161,7 +161,7 @@ class Check:
         cov = {
             'explanation': 'bounded symbolic execution of the real functions (clang IR of /repo, regenerated this run) + SMT/SAT; every obligation is a solver query over all values within the stated bounds; unsat = holds within bounds',
             'evaluations': n_obl, 'distinct_nontrivial': nontriv,
-            'rule': 'one evaluation = one solver query establishing an obligation; an obligation counts as non-trivial when the same negated property WITHOUT the code-derived constraints (or with the code result replaced by a fresh unconstrained symbol) is satisfiable, i.e. the verdict depends on what the code computes; measured by a second query',
+            'rule': 'one evaluation = one obligation (one solver query, or one group of per-path queries that must all be unsat); an obligation counts as non-trivial when the same negated property WITHOUT the code-derived constraints (or with the code result replaced by a fresh unconstrained symbol) is satisfiable, i.e. the verdict depends on what the code computes; measured by a second query (for grouped obligations on the first path). CBMC obligations count as non-trivial when the reachability witness of the same harness fired; obligations decided on the executed event trace without a solver query (call order, lock bracketing, stencil duplicates) count when the trace contains the events they speak about. Distinctness is by obligation name.',
             'obligations': n_obl, 'discharged': n_unsat, 'sat': n_sat, 'unknown': n_unk,
             'checker_cmd': './check %s --tier %s' % (s.pid, s.tier),
             'trusted_base': ['clang++-14 -O1 lowering of the harness TU', 'engine/llir.py IR parser', 'engine/symx.py interpreter (validated each run against native execution, see encoder_validation)', 'z3 4.x', 'cbmc 6.11 (E1 harnesses)', 'environment models listed under stubs'],
